@@ -313,26 +313,31 @@ def _real(f: list[str]) -> str:
                 + " | " + outcome(lambda: o.country, lambda c: "-" if c is None else hx(c.alpha_2)) \
                 + " | " + hx(str(b)) + " " + hx(str(getattr(b, "country_code", "")))
         before = observe()
+        own = str(o)[:2]
         touches = [
-            lambda: BBAN(other, b), lambda: BBAN(o.country_code, b), lambda: BBAN(other, o),
+            lambda: BBAN(own, b), lambda: BBAN(other, b), lambda: BBAN(other, o),
+            lambda: BIC("ABCD" + own + "22", allow_invalid=True).country,
+            lambda: BIC("ABCD" + own + "22").exists,
             lambda: IBAN(o), lambda: IBAN(o, allow_invalid=True), lambda: IBAN(b, allow_invalid=True),
-            lambda: IBAN.from_bban(other, b, allow_invalid=True), lambda: IBAN.from_bban(o.country_code, b),
+            lambda: IBAN.from_bban(other, b, allow_invalid=True), lambda: IBAN.from_bban(own, b),
             lambda: IBAN.from_bban(other, str(b), allow_invalid=True),
             lambda: BIC(o, allow_invalid=True), lambda: BIC(b, allow_invalid=True),
             lambda: BIC(str(o)[:4] + other + str(o)[6:8], allow_invalid=True).country,
             lambda: copy.copy(o), lambda: copy.deepcopy(o), lambda: pickle.loads(pickle.dumps(o)),
             lambda: (o == b, o < b, hash(o), sorted([o, b, str(o)])), lambda: o.validate(), lambda: o.validate(True),
             lambda: o.is_valid, lambda: o.bic, lambda: o.bank_name, lambda: b.validate_national_checksum(),
-            lambda: IBAN.generate(other, "1", "1"), lambda: IBAN.generate(o.country_code, o.bank_code, o.account_code),
+            lambda: IBAN.generate(other, "1", "1"), lambda: IBAN.generate(own, o.bank_code, o.account_code),
             lambda: IBAN.random(other, random=__import__("random").Random(1)),
         ]
-        for t in touches:
+        for n, t in enumerate(touches):
             try:
                 t()
             except Exception:  # noqa: BLE001
                 pass
-        after = observe()
-        return "ok SAME" if before == after else "ok CHANGED " + before.replace(" ", "_") + " -> " + after.replace(" ", "_")
+            after = observe()      # after EVERY call (a later call may undo what an earlier one did)
+            if after != before:
+                return "ok CHANGED-BY-CALL-%d " % n + before.replace(" ", "_") + " -> " + after.replace(" ", "_")
+        return "ok SAME"
     if op == "json.merge":
         import copy
         l, r = jdec(f[1]), jdec(f[2])
